@@ -25,7 +25,7 @@ for d in sorted(p for p in S.iterdir() if p.is_dir() and (p / "meta.json").exist
         for chk in [prop] + also:
             if chk not in claimed:
                 print(sid, chk, "not claimed yet"); continue
-            for tier in ("quick", "thorough"):
+            for tier in os.environ.get("SEEDED_TIERS", "quick,thorough").split(","):
                 t0 = time.time()
                 env = dict(os.environ, VERIF_REPO_SRC=str(scratch / "repo" / "src"), VERIF_OUT_DIR=str(scratch / "out"))
                 r = subprocess.run([str(V / "bin" / "check"), chk, tier], env=env, capture_output=True, text=True, timeout=7200)
